@@ -745,4 +745,37 @@ func c11NoExtraRejection(r *core.Report) {
 	if n < 7 {
 		r.Undecided(rule, "iplddecoders#fast-decoders", "", fmt.Sprintf("only %d _Decode*Fast functions found (7 expected)", n))
 	}
+	// GetKind (the dispatch of DecodeAny and of the indexers) refuses an input only because it is too short: no error
+	// return depends on the content of the bytes (tuple header, field count, ...), which the schema decoder does not constrain
+	if gk := r.Anchor(rule, "iplddecoders.GetKind"); gk != nil {
+		info := gk.Pkg.TypesInfo
+		g := p.Graph(gk)
+		in := gk.ParamObj(0)
+		bad := ""
+		for _, rn := range g.Returns() {
+			if nilErr, dec := isNilErrReturn(gk, rn); dec && nilErr {
+				continue
+			}
+			for _, fc := range g.FactsAt(rn) {
+				content := false
+				ast.Inspect(fc.Expr, func(m ast.Node) bool {
+					if ix, ok := m.(*ast.IndexExpr); ok && core.ObjOf(info, ix.X) == types.Object(in) {
+						content = true
+					}
+					return true
+				})
+				// values derived from the content (kind := Kind(anyRaw[1])) count as content too
+				for o := range taintFrom(gk, in) {
+					if o != types.Object(in) && core.Mentions(info, fc.Expr, o) {
+						content = true
+					}
+				}
+				if content {
+					bad = p.Rel(rn.Ast.Pos()) + " under [" + core.ExprStr(fc.Expr) + "]"
+				}
+			}
+		}
+		r.Check(bad == "", rule, gk.Key+"#rejects-only-short-input", posP(r, gk.Pos()), "GetKind fails only for inputs too short to carry a kind",
+			"GetKind returns an error at "+bad+", a test on the content of the node: nodes the schema-driven decoder accepts (e.g. with a trailing optional field omitted) are rejected by DecodeAny and the indexers")
+	}
 }
